@@ -78,7 +78,15 @@ func flowsToReturn(v ssa.Value, seen map[ssa.Value]bool) bool {
 		case *ssa.Return:
 			return true
 		case *ssa.Phi:
-			if flowsToReturn(x, seen) {
+			// carried round a loop (the value arrives over a back edge only): the next
+			// iteration may overwrite it before anything looks at it
+			direct := false
+			for i, e := range x.Edges {
+				if e == v && !x.Block().Dominates(x.Block().Preds[i]) {
+					direct = true
+				}
+			}
+			if direct && flowsToReturn(x, seen) {
 				return true
 			}
 		case *ssa.MakeInterface:
